@@ -5,6 +5,11 @@ HERE = os.path.dirname(os.path.dirname(os.path.abspath(__file__)))
 ALL = ["C%02d" % i for i in range(1, 21)]
 
 CLAIMED = {
+    "C19": dict(
+        text="Theorems: complement is base-wise on the generated IUPAC table on both sides of the 30-base switch and reverse_complement is an involution (U excluded); translate(reverse_translate(p)) = p for every generated genetic table without dual-use stop codons, every protein and every random stream (dual tables refuted by witness); the cumulative-sum windowed GC equals the counted fraction per window; difference array/count/segments = mismatches and their maximal runs; subdivide_window is a consecutive partition with pieces 1..m; index/segment grouping partitions the sorted input within the gap/spread limits and breaks only when a limit fails. Tables regenerated from the csv files and Biopython on every run; model tied to the code by vm_compute correspondence.",
+        note="Trusted: Coq kernel, gen_tables.py, harness; numpy cumsum/diff/nonzero semantics are modelled (lists), float division count/w checked exactly in the harness; Biopython Seq.complement/translate are data/oracles.",
+        technique="Coq proof (induction; finite table facts by vm_compute lifted with forallb_forall) + regenerated tables + vm_compute correspondence",
+        design="6/C19"),
     "C18": dict(
         text="Theorems (Coq, closed under the global context) state that overlap_region is set intersection, extended is clamped growth, merge_overlapping yields sorted pairwise-disjoint locations with the same union, shifts/tuples/order laws; the integer kernels are re-translated from Location.py on every run and proved equal to the model (bridge lemmas), the rest is tied by running model and code on an exhaustive small box plus random large coordinates.",
         note="Trusted: Coq kernel; tools/py2coq.py; harness; Biopython FeatureLocation (conversions compared differentially only). Caller-object aliasing of merge is decided by the differential run (the Gallina model has immutable values).",
